@@ -5,6 +5,7 @@ import (
 	"strings"
 
 	"pgregory.net/rapid"
+	"verifharness/fix"
 )
 
 var levelVocab = []string{"a", "b", "cc", "a", "b", ""}
@@ -176,6 +177,7 @@ func genPlanC01(t *rapid.T) Plan {
 			}
 		}
 	}
+	p.Seg, p.Reset = genSeg(t)
 	return p
 }
 
@@ -267,6 +269,7 @@ func genPlanC07(t *rapid.T) Plan {
 			p.Ops = append(p.Ops, op)
 		}
 	}
+	p.Seg, p.Reset = genSeg(t)
 	return p
 }
 
@@ -319,6 +322,7 @@ func genPlanC08(t *rapid.T) Plan {
 			p.Ops = append(p.Ops, Op{K: "unsub", C: rapid.IntRange(0, p.NClients-1).Draw(t, "uc"), Filters: []string{rapid.SampledFrom([]string{"#", "a/#", "a", "a/b"}).Draw(t, "uf")}})
 		}
 	}
+	p.Seg, p.Reset = genSeg(t)
 	return p
 }
 
@@ -375,6 +379,7 @@ func genPlanC10(t *rapid.T) Plan {
 			p.Ops = append(p.Ops, op)
 		}
 	}
+	p.Seg, p.Reset = genSeg(t)
 	return p
 }
 
@@ -436,5 +441,40 @@ func genPlanC09(t *rapid.T) Plan {
 			p.Ops = append(p.Ops, Op{K: "sub", C: 0, Filters: []string{"w/#"}, QoS: []byte{1}})
 		}
 	}
+	p.Seg, p.Reset = genSeg(t)
 	return p
+}
+
+// genSeg draws the transport of a case's connections: mostly the plain pipe
+// (a whole write per Read), otherwise inbound bytes handed to the broker in
+// pieces (cyclic list of piece sizes), and/or the end of the stream reported as
+// a connection reset instead of io.EOF.
+func genSeg(t *rapid.T) ([]int, bool) {
+	var seg []int
+	switch rapid.IntRange(0, 9).Draw(t, "segkind") {
+	case 0:
+		seg = []int{1}
+	case 1:
+		seg = rapid.SampledFrom([][]int{{2}, {3}, {1, 2}, {1, 1, 5}, {4, 1}, {7}, {1, 100}, {100}, {8191, 1}, {1, 8192}}).Draw(t, "segfixed")
+	case 2:
+		n := rapid.IntRange(1, 4).Draw(t, "seglen")
+		for i := 0; i < n; i++ {
+			seg = append(seg, rapid.IntRange(1, 300).Draw(t, "segpiece"))
+		}
+	}
+	return seg, rapid.IntRange(0, 5).Draw(t, "reset") == 0
+}
+
+// Transport is the part of a case that says how the clients' bytes reach the
+// broker (see fix.Broker.Seg / Reset); embedded in the case types.
+type Transport struct {
+	Seg   []int `json:"seg,omitempty"`
+	Reset bool  `json:"reset,omitempty"`
+}
+
+func (tr Transport) apply(b *fix.Broker) { b.Seg, b.Reset = tr.Seg, tr.Reset }
+
+func genTransport(t *rapid.T) Transport {
+	s, r := genSeg(t)
+	return Transport{Seg: s, Reset: r}
 }
